@@ -6,7 +6,7 @@ ASSUMPTIONS = {
     "N3": "N3: a successful sender-side execution addressed to another shard leaves one in-flight message (the emitted OutputTransfer, or the user's own transaction when nothing is emitted); messages are delivered in any order with acntSnd=nil",
     "N4": "N4: the caller of a delivered message is the account at which the emitting call executed; output transfers addressed to the executing shard are not re-executed",
     "N5": "N5: a transfer message that fails on the destination shard is returned to the original sender as the same function with the transfer arguments plus one trailing non-empty argument and ReturnCallAfterError=true (elrond-go createSCRsWhenError shape)",
-    "N6": "N6: the ESDT system contract is a disciplined message source: registered well-formed token identifiers only, never sets a role twice, one create-role holder per token (a hand-over names a different new owner), freeze/wipe of fungible identifiers and of single (token, nonce) holdings by the composed key, exactly-once delivery (a hand-over message may be re-delivered immediately); pause/unpause reach each shard addressed to the system account or to its broadcast alias (trailing bytes = shard id)",
+    "N6": "N6: the ESDT system contract is a disciplined message source: registered well-formed token identifiers only, never sets a role twice, one create-role holder per token (a hand-over names a different new owner), freeze/wipe of fungible identifiers and of single (token, nonce) entries by the composed key (at any user or contract address, holding the token or not), exactly-once delivery (a hand-over message may be re-delivered immediately); pause/unpause reach each shard addressed to the system account or to its broadcast alias (trailing bytes = shard id)",
     "N7": "N7: call types other than DirectCall occur only for contract callers or contract-emitted messages; gas values are arbitrary 64-bit numbers",
     "N8": "N8: token holders are user and contract accounts; the per-shard system account and the ESDT system contract are not used as holders",
     "ENC": "the production wire encoding is elrond-go's GogoProtoMarshalizer (obj.Reset(); obj.Unmarshal / obj.Marshal on the generated gogo types), re-implemented in the harness",
